@@ -169,10 +169,10 @@ __CPROVER_ensures((g_quiet && __CPROVER_old(VAL(a->_free_head)) == g_fv) ==> (g_
 __CPROVER_ensures((g_quiet && __CPROVER_old(VAL(a->_free_head)) == TAIL) ==> (g_mints == 1 && VAL(__CPROVER_return_value) == __CPROVER_old(a->_next_value)))
 ;
 //@loop IdAlloc_allocate 1
-//@  __CPROVER_assigns(@l1@, self->_free_head, self->_next_value, g_cell, g_scratch, g_in, g_held, g_maxver, g_slot.version, g_last_head_value, g_pops)
+//@  __CPROVER_assigns(@l1:current_head@, self->_free_head, self->_next_value, g_cell, g_scratch, g_in, g_held, g_maxver, g_slot.version, g_last_head_value, g_pops)
 //@  __CPROVER_loop_invariant(S_INV && B_INV && !g_held && g_pops == 0 && g_mints == 0 && g_pushes == 0 && g_loaded_head)
-//@  __CPROVER_loop_invariant(g_last_head_value == VAL(@l1@) && VER(*g_head) >= VER(@l1@) && g_maxver >= __CPROVER_loop_entry(g_maxver))
-//@  __CPROVER_loop_invariant(g_quiet ==> (VAL(*g_head) == VAL(@l1@) && VER(*g_head) == VER(@l1@) && g_in == __CPROVER_loop_entry(g_in)))
+//@  __CPROVER_loop_invariant(g_last_head_value == VAL(@l1:current_head@) && VER(*g_head) >= VER(@l1:current_head@) && g_maxver >= __CPROVER_loop_entry(g_maxver))
+//@  __CPROVER_loop_invariant(g_quiet ==> (VAL(*g_head) == VAL(@l1:current_head@) && VER(*g_head) == VER(@l1:current_head@) && g_in == __CPROVER_loop_entry(g_in)))
 //@end
 
 /* deallocate(id): one push of a value the caller owns; afterwards v is listed and no longer ACTIVE */
@@ -189,10 +189,10 @@ __CPROVER_ensures(VAL(id) == g_fv ==> (!g_held && g_maxver == __CPROVER_old(g_ma
 __CPROVER_ensures((VAL(id) == g_fv && g_quiet) ==> (g_in && g_cell != ACTIVE && VAL(*g_head) == g_fv))
 ;
 //@loop IdAlloc_deallocate 1
-//@  __CPROVER_assigns(@l1@, @p1@, self->_free_head, self->_next_value, g_cell, g_scratch, g_in, g_held, g_maxver, g_slot.version, g_last_head_value, g_pushes)
-//@  __CPROVER_loop_invariant(S_INV && B_INV && g_pushes == 0 && VAL(@p1@) == __CPROVER_loop_entry(VAL(@p1@)) && VAL(@p1@) < ACTIVE && (VAL(@p1@) != g_fv || g_held) && (VAL(@p1@) == g_fv || !g_held))
-//@  __CPROVER_loop_invariant(g_maxver == __CPROVER_loop_entry(g_maxver) || VAL(@p1@) != g_fv)
-//@  __CPROVER_loop_invariant(g_quiet ==> (VAL(*g_head) == VAL(@l1@) && VER(*g_head) == VER(@l1@)))
+//@  __CPROVER_assigns(@l1:current_head@, @p1:id@, self->_free_head, self->_next_value, g_cell, g_scratch, g_in, g_held, g_maxver, g_slot.version, g_last_head_value, g_pushes)
+//@  __CPROVER_loop_invariant(S_INV && B_INV && g_pushes == 0 && VAL(@p1:id@) == __CPROVER_loop_entry(VAL(@p1:id@)) && VAL(@p1:id@) < ACTIVE && (VAL(@p1:id@) != g_fv || g_held) && (VAL(@p1:id@) == g_fv || !g_held))
+//@  __CPROVER_loop_invariant(g_maxver == __CPROVER_loop_entry(g_maxver) || VAL(@p1:id@) != g_fv)
+//@  __CPROVER_loop_invariant(g_quiet ==> (VAL(*g_head) == VAL(@l1:current_head@) && VER(*g_head) == VER(@l1:current_head@)))
 //@end
 
 /* ---- DepositBox ---------------------------------------------------------------------------------------------------------- */
